@@ -36,6 +36,8 @@ type fnode struct {
 	rank     int
 	honour   bool
 	span     bool
+	errKind  int
+	typedNil bool
 	children []*fnode
 	conn     *cnode
 	id       int
@@ -72,7 +74,7 @@ func (b *builder) add(it *itemT) int {
 }
 
 func plainItem(n *fnode, parent int) *itemT {
-	it := &itemT{kind: n.kind, bkey: n.bkey, parent: parent, ok: n.outcome != 1, mode: n.mode, spins: n.spins, rank: n.rank, honour: n.honour, span: n.span}
+	it := &itemT{kind: n.kind, bkey: n.bkey, parent: parent, ok: n.outcome != 1, mode: n.mode, spins: n.spins, rank: n.rank, honour: n.honour, span: n.span, errKind: n.errKind, typedNil: n.typedNil}
 	return it
 }
 
@@ -88,6 +90,9 @@ func (b *builder) alloc(nodes []*fnode, parent int) {
 		switch {
 		case n.outcome == 1:
 			it.val = id
+			if !carriesID(n.errKind) {
+				it.val = fixedErrCode(n.errKind)
+			}
 		case n.outcome == 2:
 			it.val, it.value = -1, nil
 		case n.leaf:
@@ -286,7 +291,13 @@ func serve(r *run, query string) string {
 	return serveCtx(context.WithValue(context.Background(), runKey, r), query)
 }
 
-func serveCtx(ctx context.Context, query string) string {
+func serveCtx(ctx context.Context, query string) (out string) {
+	// a panic out of the execution is an observation (the response), not the end of the harness
+	defer func() {
+		if p := recover(); p != nil {
+			out = fmt.Sprintf("panic: %v", p)
+		}
+	}()
 	w := httptest.NewRecorder()
 	req, _ := http.NewRequestWithContext(ctx, "POST", "/", strings.NewReader(query))
 	req.Header.Set("Content-Type", "application/graphql")
@@ -823,5 +834,32 @@ func main() {
 		}
 		// 7. the connection matrix
 		matrixCases(h, &idx)
+		// 8. error values of every kind and typed-nil errors next to a value, through every route:
+		// the field itself synchronous / Go / Batch, nullable or non-null, next to a Go leaf
+		for _, k := range []struct {
+			kind kindT
+			bkey int
+		}{{kSync, 0}, {kGo, 0}, {kBatch, 0}} {
+			for _, nn := range []bool{false, true} {
+				for shape := 0; shape < nErrKinds+2; shape++ {
+					k, nn, shape := k, nn, shape
+					gmp := gmps[idx%len(gmps)]
+					idx++
+					h.Case(func(r *rng.R) sexp.Node {
+						a := &fnode{kind: k.kind, bkey: k.bkey, leaf: true, nonnull: nn, mode: rng.Pick(r, []int{mFree, mEarly, mLate})}
+						switch {
+						case shape < nErrKinds:
+							a.outcome, a.errKind = 1, shape
+						case shape == nErrKinds:
+							a.typedNil = true // (value, typed-nil error)
+						default:
+							a.outcome, a.typedNil = 2, true // (nil, typed-nil error)
+						}
+						b := &fnode{kind: kGo, leaf: true, mode: rng.Pick(r, []int{mFree, mEarly, mLate}), rank: 1}
+						return runCase([]*fnode{a, b}, gmp, [nBatch]int{})
+					})
+				}
+			}
+		}
 	})
 }
